@@ -270,3 +270,67 @@ OBLIGATIONS.append(Ob("checkMonotonic_contract", ob_checkmonotonic, tier="quick"
                       desc="returns => non-decreasing on the index grid incl. guard cells; raises only if some step decreases", bounds="5 index points, values real"))
 OBLIGATIONS.append(Ob("get_distance_contract", ob_get_distance, tier="quick", family="guards", encodes=["hypnotoad.core.equilibrium:PsiContour.get_distance"],
                       desc="returns => strictly increasing distances; raises only otherwise", bounds="4 points", stubs=["FineContour.getDistance -> symbols"]))
+
+
+# ---------------------------------------------------------------------------------------------
+def ob_getregridded(env):
+    """PsiContour.getRegridded: the region's end points are kept (same objects) at startInd = extend_lower and endInd = len-1-extend_upper;
+    point k is the interpolation at sfunc(k - extend_lower) - sfunc(0)"""
+    from hypnotoad.core.equilibrium import Point2D
+    sym = env.mode == "sym"
+    npoints = 4
+    el = env.int("extend_lower", lo=0, hi=2)
+    eu = env.int("extend_upper", lo=0, hi=2)
+    el, eu = int(el), int(eu)
+    env.tag("ext=%d,%d" % (el, eu))
+    old = [Point2D(float(k), 0.0) for k in range(5)]
+    c = eqm.PsiContour.__new__(eqm.PsiContour)
+    c.points = list(old)
+    c._startInd, c._endInd = 1, 3
+    c._fine_contour, c._distance = None, None
+    c._extend_lower = c._extend_upper = 0
+    c.user_options = types.SimpleNamespace(refine_width=0.1, refine_atol=1e-8)
+    c.temporaryExtend = lambda **k: None
+    sb = env.real("sfunc0", lo=-1, hi=1)
+    slope = env.real("slope", lo=0.5, hi=2)
+
+    def sfunc(i):
+        return sb + slope * i
+
+    fine = types.SimpleNamespace(distance=numpy.array([0.0, 1.0, 2.0, 1000.0]), startInd=1, extend_lower_fine=0, extend_upper_fine=0)
+    fine.distance[0] = -1000.0
+    fine.interpFunction = lambda: (lambda s: ("interp", s))
+    fine.extend = lambda **k: (_ for _ in ()).throw(core.HarnessError("fine contour extension not expected"))
+    c.get_fine_contour = lambda psi=None: setattr(c, "_fine_contour", fine) or fine
+
+    def new_from_self(points=None, psival=None):
+        n = eqm.PsiContour.__new__(eqm.PsiContour)
+        n.points = list(points)
+        n._startInd, n._endInd = 0, len(points) - 1
+        n._fine_contour, n._distance = None, None
+        n._extend_lower = n._extend_upper = 0
+        n.user_options = c.user_options
+        n.refine = lambda *a, **k: None
+        n.checkFineContourExtend = lambda **k: None
+        n.get_fine_contour = lambda psi=None: fine
+        return n
+
+    c.newContourFromSelf = new_from_self
+    with sym_numpy(env, eqm):
+        new = c.getRegridded(npoints, psi=None, sfunc=sfunc, extend_lower=el, extend_upper=eu, refine=False)
+    env.witness("regridded")
+    env.claim("number_of_points", len(new.points) == npoints + el + eu)
+    env.claim("startInd=extend_lower", new.startInd == el)
+    env.claim("endInd=len-1-extend_upper", new.endInd == len(new.points) - 1 - eu)
+    env.claim("start_point_not_moved", new.points[new.startInd] is old[1])
+    env.claim("end_point_not_moved", new.points[new.endInd] is old[3])
+    for k in range(len(new.points)):
+        if k in (new.startInd, new.endInd):
+            continue
+        tag, sval = new.points[k]
+        env.claim_eq("point_k_is_interpolated_at_sfunc(k-extend_lower)-sfunc(0)", sval, sfunc(k - el) - sfunc(0))
+
+
+OBLIGATIONS.append(Ob("getRegridded_keeps_end_points", ob_getregridded, tier="quick", family="regridding", encodes=["hypnotoad.core.equilibrium:PsiContour.getRegridded"],
+                      desc="region end points are the same objects after redistribution; startInd/endInd follow the extension counts; index-to-distance map",
+                      stubs=["FineContour interpolation -> tagged values", "temporaryExtend -> no-op"], bounds="4 points, extend_lower/upper in 0..2"))
